@@ -219,7 +219,7 @@ theorem sound_ret (e : Expr) (ih : IH e) : IH (.ret e) := by
   | mk r s1 =>
     rw [hq] at h
     cases r with
-    | ok v => simp only [Sound] at h ⊢; exact h.1
+    | ok v => simp only [Sound] at h ⊢; exact memR_union_left hk.2 h.1
     | err =>
       simp only [Sound] at h ⊢
       rcases h with h | h
@@ -227,7 +227,7 @@ theorem sound_ret (e : Expr) (ih : IH e) : IH (.ret e) := by
       · exact Or.inr (List.mem_append_left _ (List.mem_append_left _ h))
     | ret v =>
       simp only [Sound] at h ⊢
-      rw [memR_never v _ hk.2] at h; cases h
+      exact memR_union_right hk.2 h
     | _ => trivial
 
 theorem sound_abort (hasMsg : Bool) (msg : Expr) (ih : IH msg) : IH (.abort hasMsg msg) := by
@@ -401,7 +401,7 @@ theorem sound_iasg (okT errT : Tgt) (e : Expr) (dflt : Value) (ih : IH e) : IH (
 theorem op_checks_split {o : Opcode} {l r : Expr} {T : TState} (hk : AllNan (checks (.op o l r) T)) :
     AllNan (checks l T) ∧ (o = .err → effectFree l = true) ∧ AllNan (checks r (typeInfo l T).2) ∧
     AllNan (opChecks o (typeInfo l T).1 (constOf l T) (typeInfo l T).2 (typeInfo r (typeInfo l T).2).1
-      (typeInfo r (typeInfo l T).2).2 (effectFree r)) := by
+      (typeInfo r (typeInfo l T).2).2) := by
   rw [checks] at hk
   simp only [allNan_append] at hk
   obtain ⟨⟨⟨h1, h2⟩, h3⟩, h4⟩ := hk
@@ -422,7 +422,7 @@ theorem nan_r {o : Opcode} {l r : Expr} {T : TState} (h : Chk.nan ∈ checks r (
 
 theorem nan_o {o : Opcode} {l r : Expr} {T : TState}
     (h : Chk.nan ∈ opChecks o (typeInfo l T).1 (constOf l T) (typeInfo l T).2 (typeInfo r (typeInfo l T).2).1
-      (typeInfo r (typeInfo l T).2).2 (effectFree r)) : Chk.nan ∈ checks (.op o l r) T := by
+      (typeInfo r (typeInfo l T).2).2) : Chk.nan ∈ checks (.op o l r) T := by
   rw [checks]
   exact List.mem_append_right _ h
 
@@ -430,6 +430,7 @@ theorem sound_op_strict (o : Opcode) (ho : strictOp o = true) (l r : Expr) (ihl 
     IH (.op o l r) := by
   intro T s hk hc
   obtain ⟨hkl, _, hkr, hko⟩ := op_checks_split hk
+  have hu := opChecks_strict_returns o ho _ _ _ _ _ hko
   have h1 := ihl T s hkl hc
   rw [typeInfo, eval_op_strict o ho]
   simp only [opInfo]
@@ -453,7 +454,7 @@ theorem sound_op_strict (o : Opcode) (ho : strictOp o = true) (l r : Expr) (ihl 
             obtain ⟨s', e1, _⟩ := const_eval r _ c hcv s1 h1.2.2
             rw [hq2] at e1; cases e1; rfl
           have hb := binop_sound o ho v w (typeInfo l T).1 (typeInfo r (typeInfo l T).2).1 (constOf l T)
-            (constOf r (typeInfo l T).2) (typeInfo l T).2 (typeInfo r (typeInfo l T).2).2 (effectFree r)
+            (constOf r (typeInfo l T).2) (typeInfo l T).2 (typeInfo r (typeInfo l T).2).2
             h1.1 h2.1 h1.2.1 h2.2.1 hrv hko
           simp only
           rcases binop_shape o v w with ⟨x, hbo⟩ | hbo | hbo
@@ -461,16 +462,7 @@ theorem sound_op_strict (o : Opcode) (ho : strictOp o = true) (l r : Expr) (ihl 
             simp only [Sound]
             refine ⟨(hb.1 x hbo).1, (hb.1 x hbo).2, ?_⟩
             rw [opState_strict o ho]
-            by_cases hd : o = .div
-            · subst hd
-              simp only [if_true]
-              -- the state changes of the rhs are not applied: it has none
-              simp only [opChecks, allNan_append] at hko
-              rw [allNan_chk (by decide)] at hko
-              have hsame := effectFree_same r hko.1.1 s1
-              rw [hq2] at hsame
-              exact Conforms.of_same hsame h1.2.2
-            · simp only [hd, if_false]; exact h2.2.2
+            exact h2.2.2
           · rw [hbo]
             simp only [Sound]
             rcases hb.2 hbo with h | h
@@ -479,71 +471,23 @@ theorem sound_op_strict (o : Opcode) (ho : strictOp o = true) (l r : Expr) (ihl 
           · rw [hbo]; trivial
         | err =>
           simp only [Sound] at h2 ⊢
-          by_cases hd : o = .div
-          · subst hd
-            simp only [opChecks, allNan_append] at hko
-            rw [allNan_chk (by decide), allNan_chk (by decide)] at hko
-            have := hko.1.2
-            simp only [Bool.and_eq_true, Bool.not_eq_true'] at this
-            rcases h2 with h | h
-            · rw [this.1.1.2] at h; cases h
-            · exact Or.inr (nan_r h)
-          · rcases h2 with h | h
-            · exact Or.inl (opDef_strict_fallible o ho hd _ _ _ _ (Or.inr h))
-            · exact Or.inr (nan_r h)
+          rcases h2 with h | h
+          · exact Or.inl (opDef_strict_fallible o ho _ _ _ _ (Or.inr h))
+          · exact Or.inr (nan_r h)
         | ret x =>
           simp only [Sound] at h2 ⊢
-          by_cases hd : o = .div
-          · subst hd
-            simp only [opChecks, allNan_append] at hko
-            rw [allNan_chk (by decide), allNan_chk (by decide)] at hko
-            have := hko.1.2
-            simp only [Bool.and_eq_true, Bool.not_eq_true'] at this
-            rw [memR_never x _ this.2] at h2; cases h2
-          · rw [opDef_strict_returns o ho hd]
-            have hu : unionOk (typeInfo l T).1.returns (typeInfo r (typeInfo l T).2).1.returns = true := by
-              cases o <;> first
-                | (simp [strictOp] at ho; done)
-                | exact absurd rfl hd
-                | (simp only [opChecks, allNan_append] at hko
-                   first
-                     | (rw [allNan_chk (by decide)] at hko; exact hko.1)
-                     | (have := hko.2; rwa [allNan_chk (by decide)] at this))
-            exact memR_union_right hu h2
+          rw [opDef_strict_returns o ho]
+          exact memR_union_right hu h2
         | _ => trivial
     | err =>
       simp only [Sound] at h1 ⊢
-      by_cases hd : o = .div
-      · subst hd
-        simp only [opChecks, allNan_append] at hko
-        rw [allNan_chk (by decide), allNan_chk (by decide)] at hko
-        have := hko.1.2
-        simp only [Bool.and_eq_true, Bool.not_eq_true'] at this
-        rcases h1 with h | h
-        · rw [this.1.1.1] at h; cases h
-        · exact Or.inr (nan_l h)
-      · rcases h1 with h | h
-        · exact Or.inl (opDef_strict_fallible o ho hd _ _ _ _ (Or.inl h))
-        · exact Or.inr (nan_l h)
+      rcases h1 with h | h
+      · exact Or.inl (opDef_strict_fallible o ho _ _ _ _ (Or.inl h))
+      · exact Or.inr (nan_l h)
     | ret x =>
       simp only [Sound] at h1 ⊢
-      by_cases hd : o = .div
-      · subst hd
-        simp only [opChecks, allNan_append] at hko
-        rw [allNan_chk (by decide), allNan_chk (by decide)] at hko
-        have := hko.1.2
-        simp only [Bool.and_eq_true, Bool.not_eq_true'] at this
-        rw [memR_never x _ this.1.2] at h1; cases h1
-      · rw [opDef_strict_returns o ho hd]
-        have hu : unionOk (typeInfo l T).1.returns (typeInfo r (typeInfo l T).2).1.returns = true := by
-          cases o <;> first
-            | (simp [strictOp] at ho; done)
-            | exact absurd rfl hd
-            | (simp only [opChecks, allNan_append] at hko
-               first
-                 | (rw [allNan_chk (by decide)] at hko; exact hko.1)
-                 | (have := hko.2; rwa [allNan_chk (by decide)] at this))
-        exact memR_union_left hu h1
+      rw [opDef_strict_returns o ho]
+      exact memR_union_left hu h1
     | _ => trivial
 
 theorem sound_op_err (l r : Expr) (ihl : IH l) (ihr : IH r) : IH (.op .err l r) := by
@@ -671,9 +615,9 @@ theorem sound_op_or (l r : Expr) (ihl : IH l) (ihr : IH r) : IH (.op .or l r) :=
   simp only [opChecks] at hko
   by_cases c1 : ((typeInfo l T).1.upgradeUndefined.kind.isNull || optValueEq (constOf l T) (some (.bool false))) = true
   · -- the lhs is always "false": the result is the rhs
-    simp only [c1, if_true] at hko ⊢
-    rw [allNan_chk (by decide)] at hko
-    simp only [Bool.and_eq_true, Bool.not_eq_true'] at hko
+    simp only [c1, if_true, allNan_append] at hko ⊢
+    rw [allNan_chk (by decide), allNan_chk (by decide)] at hko
+    obtain ⟨hu1, hu2⟩ := hko
     cases hq : eval l { s with evShort := true } with
     | mk r1 s1 =>
       rw [hq] at h1
@@ -691,20 +635,22 @@ theorem sound_op_or (l r : Expr) (ihl : IH l) (ihr : IH r) : IH (.op .or l r) :=
         | mk r2 s2 =>
           rw [hq2] at h2
           cases r2 with
+          | ok w =>
+            simp only [Sound] at h2 ⊢
+            exact ⟨memR_union_right hu1 h2.1, h2.2.1, h2.2.2⟩
           | err =>
             simp only [Sound] at h2 ⊢
             rcases h2 with h | h
-            · exact Or.inl h
+            · exact Or.inl (by simp [h])
             · exact Or.inr (nan_r h)
-          | _ => exact h2
+          | ret x => simp only [Sound] at h2 ⊢; exact memR_union_right hu2 h2
+          | _ => trivial
       | err =>
         simp only [Sound] at h1 ⊢
         rcases h1 with h | h
-        · rw [hko.1] at h; cases h
+        · exact Or.inl (by simp [TypeDef.upgradeUndefined, h])
         · exact Or.inr (nan_l h)
-      | ret x =>
-        simp only [Sound] at h1 ⊢
-        rw [memR_never x _ hko.2] at h1; cases h1
+      | ret x => simp only [Sound] at h1 ⊢; exact memR_union_left hu2 h1
       | _ => trivial
   · simp only [c1, Bool.false_eq_true, if_false] at hko ⊢
     by_cases c2 : (!((typeInfo l T).1.upgradeUndefined.kind.containsNull ||
@@ -817,8 +763,6 @@ theorem sound_op_and (l r : Expr) (ihl : IH l) (ihr : IH r) : IH (.op .and l r) 
   by_cases c1 : ((typeInfo l T).1.kind.isNull || optValueEq (constOf l T) (some (.bool false))) = true
   · -- the lhs is always "false"
     simp only [c1, if_true] at hko ⊢
-    rw [allNan_chk (by decide)] at hko
-    simp only [Bool.and_eq_true, Bool.not_eq_true'] at hko
     cases hq : eval l { s with evShort := true } with
     | mk r1 s1 =>
       rw [hq] at h1
@@ -835,18 +779,15 @@ theorem sound_op_and (l r : Expr) (ihl : IH l) (ihr : IH r) : IH (.op .and l r) 
       | err =>
         simp only [Sound] at h1 ⊢
         rcases h1 with h | h
-        · rw [hko.1] at h; cases h
+        · exact Or.inl h
         · exact Or.inr (nan_l h)
-      | ret x =>
-        simp only [Sound] at h1 ⊢
-        rw [memR_never x _ hko.2] at h1; cases h1
+      | ret x => simp only [Sound] at h1 ⊢; exact h1
       | _ => trivial
   · simp only [c1, Bool.false_eq_true, if_false] at hko ⊢
     by_cases c2 : optValueEq (constOf l T) (some (.bool true)) = true
     · -- the lhs is always "true"
       simp only [c2, if_true] at hko ⊢
       rw [allNan_chk (by decide)] at hko
-      simp only [Bool.and_eq_true, Bool.not_eq_true'] at hko
       cases hq : eval l { s with evShort := true } with
       | mk r1 s1 =>
         rw [hq] at h1
@@ -861,16 +802,30 @@ theorem sound_op_and (l r : Expr) (ihl : IH l) (ihr : IH r) : IH (.op .and l r) 
           cases r2 with
           | ok w =>
             simp only [Sound] at h2
-            have hw := memR_nullBool (superset_prim_sound w nullBool _ nullBool_noExactAny hko.2 h2.1)
-            obtain ⟨b, hb⟩ := tryAnd_true_nullBool hw
-            simp only [hb, Sound]
-            exact ⟨memR_bool _, rfl, h2.2.2⟩
+            simp only
+            rcases tryAnd_shape (.bool true) w with ⟨b, hb⟩ | hb
+            · simp only [hb, Sound]
+              exact ⟨memR_bool _, rfl, h2.2.2⟩
+            · simp only [hb, Sound]
+              left
+              simp only [TypeDef.withKind_fallible, TypeDef.union_fallible, Bool.or_eq_true]
+              cases f2 : ((typeInfo r (typeInfo l T).2).1.fallibleUnless nullBool).fallible with
+              | true => exact Or.inr rfl
+              | false =>
+                exfalso
+                have m2 := memR_nullBool (superset_prim_sound w nullBool _ nullBool_noExactAny
+                  (TypeDef.fallibleUnless_false _ _ f2) h2.1)
+                obtain ⟨b, hb'⟩ := tryAnd_true_nullBool m2
+                rw [hb'] at hb; cases hb
           | err =>
             simp only [Sound] at h2 ⊢
             rcases h2 with h | h
-            · exact Or.inl h
+            · exact Or.inl (by simp [TypeDef.fallibleUnless_mono _ _ h])
             · exact Or.inr (nan_r h)
-          | ret x => simp only [Sound] at h2 ⊢; exact h2
+          | ret x =>
+            simp only [Sound] at h2 ⊢
+            simp only [TypeDef.withKind_returns, TypeDef.union_returns, TypeDef.fallibleUnless_returns]
+            exact memR_union_right hko h2
           | _ => trivial
     · -- unknown
       simp only [c2, Bool.false_eq_true, if_false, allNan_append] at hko ⊢
@@ -1766,6 +1721,149 @@ theorem sound_delExt (m : Bool) (p : Path) (hasC : Bool) (c : Expr) (ihc : IH c)
         rw [memR_never x _ hkc.2.2] at h1; cases h1
       | _ => trivial
 
+/-! ### `del` on a variable: the root, or one field of an exact object kind -/
+
+theorem conforms_delExternal_none {s : St} {T : TState} (compact : Option Bool) (hc : Conforms s T)
+    (hk : compact = none → unionOk T.target T.target = true ∧ unionOk T.metadata T.metadata = true) :
+    Conforms s (delExternal T none compact) := by
+  cases compact with
+  | some b => exact hc
+  | none =>
+    obtain ⟨h1, h2⟩ := hk rfl
+    exact ⟨hc.faults, hc.vars, mem_union_left' h1 hc.event, hc.eventSorted,
+      mem_union_left' h2 hc.metadata, hc.metadataSorted, hc.closed⟩
+
+theorem delExternal_none_getVar (T : TState) (compact : Option Bool) (n : String) :
+    (delExternal T none compact).getVar n = T.getVar n := by
+  cases compact <;> rfl
+
+/-- the variable after `del` against its re-inserted type (`DelFn::type_info`) -/
+theorem conforms_delVarUpdate {s : St} {T : TState} {n : String} {p : Path} {d : Details} {v : Value}
+    (compact : Option Bool) (b : Bool) (hb : ∀ c, compact = some c → b = c)
+    (hd : T.getVar n = some d) (hv : mem v d.td.kind = true) (hs : v.Sorted = true)
+    (hok : delPathOk d.td.kind p = true)
+    (hu : compact = none → unionOk (removeTd d.td p false).kind (removeTd d.td p true).kind = true)
+    (hc : Conforms s T) :
+    Conforms (s.setVar n (v.remove p b).2) (delVarUpdate T n p compact) := by
+  have hmb : ∀ b', mem (v.remove p b').2 (removeTd d.td p b').kind = true := by
+    intro b'
+    obtain ⟨K', R, hrem, hmem⟩ := remove_sound_ok v d.td.kind p b' hok hv hs
+    simpa [removeTd, hrem] using hmem
+  have hso := C18.remove_sorted v p b hs
+  unfold delVarUpdate
+  rw [hd]
+  simp only
+  cases compact with
+  | some c =>
+    have := hb c rfl
+    subst this
+    have h := Conforms.setVar (n := n) (d := { td := removeTd d.td p b, value := none }) hc (hmb b) hso
+      (by intro c h; cases h)
+    exact ⟨h.faults, h.vars, h.event, h.eventSorted, h.metadata, h.metadataSorted, h.closed⟩
+  | none =>
+    have hu := hu rfl
+    have hm : mem (v.remove p b).2 ((removeTd d.td p false).union (removeTd d.td p true)).kind = true := by
+      cases b with
+      | false => exact mem_union_left' hu (hmb false)
+      | true => exact mem_union_right' hu (hmb true)
+    have h := Conforms.setVar (n := n)
+      (d := { td := (removeTd d.td p false).union (removeTd d.td p true), value := none }) hc hm hso
+      (by intro c h; cases h)
+    exact ⟨h.faults, h.vars, h.event, h.eventSorted, h.metadata, h.metadataSorted, h.closed⟩
+
+/-- `DelFn::resolve` on a variable, once `compact` is known to be `b` -/
+theorem delVar_step {s : St} {T : TState} (n : String) (p : Path) (compact : Option Bool) (b : Bool)
+    (hb : ∀ c, compact = some c → b = c)
+    (hst : AllNan (chk .structural (T.getVar n).isSome)) (hk : AllNan (delVarChecks T n p compact))
+    (hc : Conforms s T) (f : Bool) (cs : List Chk) :
+    Sound (((varDef T n).atPath p).maybeFallible f) (delVarUpdate (delExternal T none compact) n p compact) cs
+      (match s.getVar n with
+       | some v =>
+         let (r, v') := v.remove p b
+         (.ok (r.getD .null), s.setVar n v')
+       | none => (.ok .null, s)) := by
+  rw [allNan_chk (by decide)] at hst
+  cases hd : T.getVar n with
+  | none => rw [hd] at hst; cases hst
+  | some d =>
+    obtain ⟨v, h1, h2, h3, _⟩ := hc.vars n d hd
+    simp only [delVarChecks, hd, allNan_append] at hk
+    obtain ⟨⟨hp, hat⟩, hun⟩ := hk
+    rw [allNan_chk (by decide)] at hp hat
+    have hres := memR_atPath (memR_of_mem h2) h3 hat
+    have hext : Conforms s (delExternal T none compact) := by
+      apply conforms_delExternal_none compact hc
+      intro hcn
+      subst hcn
+      simp only [allNan_append, allNan_chk (c := .kindUnion) (by decide)] at hun
+      exact ⟨hun.1.2, hun.2⟩
+    have hconf := conforms_delVarUpdate (n := n) (p := p) (d := d) (v := v) compact b hb
+      (by rw [delExternal_none_getVar]; exact hd) h2 h3 hp
+      (by
+        intro hcn
+        subst hcn
+        simp only [allNan_append, allNan_chk (c := .kindUnion) (by decide)] at hun
+        exact hun.1.1) hext
+    simp only [h1, Sound, TypeDef.maybeFallible, TypeDef.atPath, varDef, hd]
+    rw [C18.remove_returns_get]
+    exact ⟨hres.1, hres.2, hconf⟩
+
+theorem sound_delVar (n : String) (p : Path) (hasC : Bool) (c : Expr) (ihc : IH c) : IH (.delVar n p hasC c) := by
+  intro T s hk hc
+  rw [checks] at hk ⊢
+  simp only [allNan_append] at hk
+  obtain ⟨⟨hkc, hst⟩, hdv⟩ := hk
+  rw [typeInfo, eval]
+  cases hasC with
+  | false =>
+    simp only [Bool.false_eq_true, if_false] at hst hdv ⊢
+    exact delVar_step n p none false (fun c h => by cases h) hst hdv hc _ _
+  | true =>
+    simp only [if_true, allNan_append] at hkc hst hdv ⊢
+    rw [allNan_chk (by decide)] at hkc
+    simp only [Bool.and_eq_true, Bool.not_eq_true'] at hkc
+    have h1 := ihc T s hkc.1 hc
+    cases hq : eval c s with
+    | mk r1 s1 =>
+      rw [hq] at h1
+      cases r1 with
+      | ok v =>
+        simp only [Sound] at h1
+        cases v with
+        | bool b =>
+          simp only
+          have hb : ∀ c', (constOf c (typeInfo c T).2).bind asBoolean = some c' → b = c' := by
+            intro c' hc'
+            cases hcv : constOf c (typeInfo c T).2 with
+            | none => rw [hcv] at hc'; cases hc'
+            | some cv =>
+              have := asg_const hc hq cv hcv
+              subst this
+              rw [hcv] at hc'
+              simpa [asBoolean] using hc'
+          exact delVar_step n p _ b hb hst hdv h1.2.2 _ _
+        | _ =>
+          simp only [Sound, TypeDef.maybeFallible]
+          left
+          simp only [delFallible, TypeDef.atPath, Bool.true_and, Bool.not_eq_true', Bool.or_eq_true]
+          right
+          cases hsup : Kind.boolean.isSuperset (typeInfo c T).1.kind with
+          | false => rfl
+          | true =>
+            have := memR_isBoolean (K := Kind.boolean) (by decide)
+              (superset_prim_sound _ Kind.boolean _ boolean_noExactAny hsup h1.1)
+            obtain ⟨b, hb⟩ := this
+            cases hb
+      | err =>
+        simp only [Sound] at h1 ⊢
+        rcases h1 with h | h
+        · rw [hkc.2.1] at h; cases h
+        · exact Or.inr (List.mem_append_left _ (List.mem_append_left _ (List.mem_append_left _ h)))
+      | ret x =>
+        simp only [Sound] at h1
+        rw [memR_never x _ hkc.2.2] at h1; cases h1
+      | _ => trivial
+
 /-! ### forms outside the theorem (a failed check) -/
 
 theorem sound_excluded (e : Expr) (c : Chk) (hc : c ≠ .nan) (h : ∀ T, c ∈ checks e T) : IH e := by
@@ -1794,7 +1892,7 @@ mutual
     | .abort h m => sound_abort h m (eval_sound m)
     | .ret e => sound_ret e (eval_sound e)
     | .delExt m p h c => sound_delExt m p h c (eval_sound c)
-    | .delVar n p h c => sound_excluded _ .delTyping (by decide) (fun T => by rw [checks]; simp)
+    | .delVar n p h c => sound_delVar n p h c (eval_sound c)
     | .delExpr e p h c => sound_excluded _ .delTyping (by decide) (fun T => by rw [checks]; simp)
     | .existsExt m p => sound_existsExt m p
     | .existsVar n p => sound_existsVar n p
